@@ -4,6 +4,7 @@ C01 — Version ordering is exactly dpkg's ordering: property theorems.
 import DebInspector.Props.C01
 import DebInspector.Proofs.VersionOrder
 import DebInspector.Thm.C03
+import DebInspector.Proofs.Verrevcmp
 
 namespace Props.C01
 open Py Spec Spec.VerOrder Model.Version Proofs.VersionParse Proofs.VersionOrder
@@ -63,6 +64,35 @@ theorem soundS (i : Input) : holdsOnS i (modelS i) = true := by
     · right; rw [compareStrings_eq_dpkg x y hx hy]; simp
     · left; right; simpa using hy
   · left; left; simpa using hx
+
+/-- **against dpkg's C code**: for every pair of accepted strings the model of `compare_versions`
+returns the sign of the transliterated `dpkg_version_compare` on the `parseversion` decompositions -/
+theorem compareVersions_eq_dpkgC (a b : Str) (va vb : Ver)
+    (ha : fromString a = .ok va) (hb : fromString b = .ok vb) :
+    compareVersions a b = .ok (Dpkg.compareStr (strip a) (strip b)) := by
+  rw [compareVersions_eq_dpkg a b va vb ha hb, Proofs.Verrevcmp.compareStr_eq_declarative]
+
+/-- the transliterated C `verrevcmp` and the declarative order agree on every pair of strings -/
+theorem verrevcmp_eq_declarative (x y : Str) : Dpkg.sign (Dpkg.verrevcmp x y) = dpkgCmpStr x y :=
+  Proofs.Verrevcmp.verrevcmp_eq x y
+
+/-- **C01 against the C transliteration**, for every pair of Unicode strings -/
+theorem soundC (i : Input) : holdsOnC i (model i) = true := by
+  obtain ⟨a, b⟩ := i
+  unfold holdsOnC model
+  simp only
+  cases ha : fromString a with
+  | error x =>
+    have hm : compareVersions a b = .error x := by unfold compareVersions; rw [ha]
+    rw [hm]
+  | ok va =>
+    cases hb : fromString b with
+    | error x =>
+      have hm : compareVersions a b = .error x := by unfold compareVersions; rw [ha, hb]
+      rw [hm]
+    | ok vb =>
+      rw [compareVersions_eq_dpkgC a b va vb ha hb]
+      simp
 
 /-- "a missing revision counts as revision 0", "a missing epoch counts as 0": the empty component
 and "0" are order-equal, against anything -/
